@@ -71,6 +71,10 @@ impl CertConsumer for CertPrinter<'_, '_> {
         let _ = writeln!(self.f, "{} {} {:x?}", SPACE[self.level], tag, s);
         Ok(())
     }
+    fn ia5str(&mut self, tag: &str, s: &str) -> Result<(), Error> {
+        let _ = writeln!(self.f, "{} {} {:x?}", SPACE[self.level], tag, s);
+        Ok(())
+    }
     fn bitstr(&mut self, tag: &str, _truncate: bool, s: &[u8]) -> Result<(), Error> {
         let _ = writeln!(self.f, "{} {} {:x?}", SPACE[self.level], tag, s);
         Ok(())
